@@ -332,7 +332,7 @@ fn k_pm_sources() {
 pub static mut UF_AMUL: Uf = Uf::new();
 pub fn alpha_mul_uf(x: u32, a: u32) -> u32 { unsafe { UF_AMUL.call([x, a, 0, 0]) } }
 
-// @ob id=K.is_integer_transform props=C13,C07 kind=complete tier=quick timeout=600 fns=is_integer_transform
+// @ob id=K.is_integer_transform props=C13,C07,C11 kind=complete tier=quick timeout=600 fns=is_integer_transform
 // @+ desc="is_integer_transform for every six f32 (NaN and infinities included; finite translations up to 2^30): Some((tx,ty)) exactly when the matrix is [1 0 0 1 tx ty] with tx,ty integral and representable as i32 (then tx,ty are those integers); None otherwise; never panics"
 #[kani::proof]
 fn k_is_integer_transform() {
